@@ -123,6 +123,7 @@ def run_tlc(module, cfg_text, files=(), workers=None, timeout=900, tags=("CASE",
     os.makedirs(BUILD, exist_ok=True)
     d = tempfile.mkdtemp(prefix="tlc-", dir=BUILD)
     res = TlcResult()
+    res.module = module
     res.tagged = {t: [] for t in tags}
     try:
         for f in os.listdir(SPEC):
@@ -495,6 +496,8 @@ class Report:
     def add_tlc(self, res):
         self.cov["states"] += res.distinct
         self.cov["transitions"] += res.generated
+        if os.environ.get("VERIF_DEBUG"):
+            sys.stderr.write("TLC %s: %d distinct, %d generated, %.1fs\n" % (getattr(res, "module", "?"), res.distinct, res.generated, res.wall))
 
     def count(self, n=1):
         self.cov["evaluations"] += n
